@@ -5,6 +5,7 @@ mod syncmsg;
 mod c05;
 mod c08;
 mod c09;
+mod c10;
 mod c12;
 mod c14;
 mod storeops;
@@ -57,6 +58,7 @@ fn run<P: Property>(p: P, args: &[String], quick_cases: usize, thorough_cases: u
         threads: arg(args, "--threads").and_then(|s| s.parse().ok()).unwrap_or(12),
     };
     let out = arg(args, "--out").map(PathBuf::from);
+    start_watchdog(p.id(), cfg.replay_dir.clone(), std::time::Duration::from_secs(std::env::var("VERIF_HANG_SECS").ok().and_then(|s| s.parse().ok()).unwrap_or(120)));
     match run_property(&p, &cfg) {
         Ok(report) => print_and_exit(&report, out.as_deref()),
         Err(e) => {
@@ -78,6 +80,7 @@ fn main() {
         "C05" => run(c05::C05::new(), &args, 2500, 40000),
         "C08" => run(c08::C08::new(), &args, 700, 20000),
         "C09" => run(c09::C09::new(), &args, 400, 8000),
+        "C10" => run(c10::C10::new(), &args, 300, 5000),
         "C12" => run(c12::C12::new(), &args, 600, 10000),
         "C13" => run(storeprops::StoreProp::new("C13"), &args, 2500, 40000),
         "C16" => run(storeprops::StoreProp::new("C16"), &args, 1500, 20000),
